@@ -655,4 +655,111 @@ theorem set_spec {sh : Shape} {data : List α} {W : List (List α)} (R : Rel sh 
     unfold SurfModel.Shape.set
     simp [h1, h2, hold]
 
+/-! ### `with_position` -/
+theorem iterPosition_eq (sh : Shape) {k : Nat} (hk : k < sh.height * sh.width) :
+    iterPosition sh k = (k / sh.width, k % sh.width) := by
+  unfold iterPosition; rw [nth_eq, if_pos hk]
+
+theorem posIterNext_spec {sh : Shape} {data : List α} {W : List (List α)} (R : Rel sh data W)
+    (hbig : sh.height * sh.width < usizeMax) (index : Nat) :
+    posIterNext sh data index = (min (index + 1) usizeMax,
+      (((offs sh).zip W.flatten)[index]?).map (fun x => ((index / sh.width, index % sh.width), x))) := by
+  unfold posIterNext
+  rw [iterNth_spec R hbig index 0]
+  simp only [Nat.add_zero]
+  cases hL : ((offs sh).zip W.flatten)[index]? with
+  | none => rfl
+  | some x =>
+    have hlt : index < sh.height * sh.width := by
+      have := (List.getElem?_eq_some_iff.mp hL).1
+      rw [R.zip_length] at this; exact this
+    simp [iterPosition_eq sh hlt]
+
+theorem posIterNth_spec {sh : Shape} {data : List α} {W : List (List α)} (R : Rel sh data W)
+    (hbig : sh.height * sh.width < usizeMax) (n index : Nat) :
+    (posIterNth sh data n index).2 = (((offs sh).zip W.flatten)[index + n]?).map
+        (fun x => (((index + n) / sh.width, (index + n) % sh.width), x)) ∧
+    ((posIterNth sh data n index).2.isSome → (posIterNth sh data n index).1 = index + n + 1) := by
+  induction n generalizing index with
+  | zero =>
+    unfold posIterNth
+    rw [posIterNext_spec R hbig index]
+    refine ⟨rfl, ?_⟩
+    intro hs
+    simp only [Nat.add_zero, Option.isSome_map] at hs
+    obtain ⟨x, hx⟩ := Option.isSome_iff_exists.mp hs
+    have := (List.getElem?_eq_some_iff.mp hx).1
+    rw [R.zip_length] at this
+    simp only; omega
+  | succ n ih =>
+    unfold posIterNth
+    rw [posIterNext_spec R hbig index]
+    cases hL : ((offs sh).zip W.flatten)[index]? with
+    | none =>
+      have hge : ((offs sh).zip W.flatten).length ≤ index := List.getElem?_eq_none_iff.mp hL
+      have : ((offs sh).zip W.flatten)[index + (n + 1)]? = none := List.getElem?_eq_none (by omega)
+      simp [this]
+    | some x =>
+      have hlt : index < sh.height * sh.width := by
+        have := (List.getElem?_eq_some_iff.mp hL).1
+        rw [R.zip_length] at this; exact this
+      have hmin : min (index + 1) usizeMax = index + 1 := by omega
+      simp only [Option.map_some, hmin]
+      have e : index + 1 + n = index + (n + 1) := by omega
+      have := ih (index + 1)
+      rw [e] at this
+      refine ⟨this.1, fun hs => ?_⟩
+      rw [this.2 hs]
+
+theorem posIterMutNext_spec {sh : Shape} {data : List α} {W : List (List α)} (R : Rel sh data W)
+    (hbig : sh.height * sh.width < usizeMax) (index : Nat) :
+    posIterMutNext sh data.length index = (min (index + 1) usizeMax,
+      ((offs sh)[index]?).map (fun x => ((index / sh.width, index % sh.width), x))) := by
+  unfold posIterMutNext
+  rw [iterMutNth_spec R hbig index 0]
+  simp only [Nat.add_zero]
+  cases hL : (offs sh)[index]? with
+  | none => rfl
+  | some x =>
+    have hlt : index < sh.height * sh.width := by
+      have := (List.getElem?_eq_some_iff.mp hL).1
+      rw [offs_length] at this; exact this
+    simp [iterPosition_eq sh hlt]
+
+theorem posIterMutNth_spec {sh : Shape} {data : List α} {W : List (List α)} (R : Rel sh data W)
+    (hbig : sh.height * sh.width < usizeMax) (n index : Nat) :
+    (posIterMutNth sh data.length n index).2 = ((offs sh)[index + n]?).map
+        (fun x => (((index + n) / sh.width, (index + n) % sh.width), x)) ∧
+    ((posIterMutNth sh data.length n index).2.isSome → (posIterMutNth sh data.length n index).1 = index + n + 1) := by
+  induction n generalizing index with
+  | zero =>
+    unfold posIterMutNth
+    rw [posIterMutNext_spec R hbig index]
+    refine ⟨rfl, ?_⟩
+    intro hs
+    simp only [Nat.add_zero, Option.isSome_map] at hs
+    obtain ⟨x, hx⟩ := Option.isSome_iff_exists.mp hs
+    have := (List.getElem?_eq_some_iff.mp hx).1
+    rw [offs_length] at this
+    simp only; omega
+  | succ n ih =>
+    unfold posIterMutNth
+    rw [posIterMutNext_spec R hbig index]
+    cases hL : (offs sh)[index]? with
+    | none =>
+      have hge : (offs sh).length ≤ index := List.getElem?_eq_none_iff.mp hL
+      have : (offs sh)[index + (n + 1)]? = none := List.getElem?_eq_none (by omega)
+      simp [this]
+    | some x =>
+      have hlt : index < sh.height * sh.width := by
+        have := (List.getElem?_eq_some_iff.mp hL).1
+        rw [offs_length] at this; exact this
+      have hmin : min (index + 1) usizeMax = index + 1 := by omega
+      simp only [Option.map_some, hmin]
+      have e : index + 1 + n = index + (n + 1) := by omega
+      have := ih (index + 1)
+      rw [e] at this
+      refine ⟨this.1, fun hs => ?_⟩
+      rw [this.2 hs]
+
 end SurfProofs.Lemmas.Shape
